@@ -1200,6 +1200,13 @@ func finishDesc(g *hx.Gen, id int, nb, na int64, host, le int, pub, priv, match,
 			}
 		}
 		v := hostVerdict(cn, san, dom)
+		if id == 0 && v != hostVerdict(cn, san, "example.org") {
+			// The CA's descriptor is applied to every name of the op. Here the verdict for this op's first name
+			// (one x509 does not take as a host name) differs from the verdict for an ordinary name, so the shape
+			// is name dependent: fall back to the plain descriptor, whose SAN never covers anything when host=0.
+			g.Stat("cert.ca-shape-name-dependent-fallback")
+			return fmt.Sprintf("c/%d/%d/%d/%d/%d/%s/%s/%s", id, nb, na, 0, le, pub, priv, match)
+		}
 		g.Stat(fmt.Sprintf("cert.cn=%c+san=%c", cn, san))
 		hit("cn-x-san", 18, string([]byte{cn, san}))
 		if cn == 'd' && v == 0 {
